@@ -130,6 +130,11 @@ def generate(rng, tier):
             f['exc'] = rng.choice(['ExitTestException', 'Skipped'])
         elif kind == 'warn_filters':
             f['how'] = rng.choice(['simplefilter', 'insert', 'reset'])
+        elif kind == 'swap_stdout':
+            f['how'] = rng.choice(['open', 'closed'])
+            if rng.random() < 0.6:
+                # in the last statement of the doctest: nothing of this doctest runs afterwards
+                f['pid'] = pts[-1]['pid']
         plan.append(f)
     # the E14 shape: the first output of a later execution of the same object is muted
     if rng.random() < 0.35:
